@@ -4,6 +4,9 @@ correspondence: the REAL click groups (ascmhl.cli.ascmhl:mhltool_cli, ascmhl.cli
 subprocesses whose `requests.get` was replaced (sitecustomize, before ascmhl.cli is imported) by a scripted update
 server; (exit status, notice yes/no, "thread died with a traceback" yes/no, time spent waiting) are compared with
 `predict` of coq/Model/Update.v evaluated by vm_compute on the same (server, installed version, command) data.
+(History: these runs found that the pinned code could end with status 134 -- a checker thread dying of an unhandled
+exception while the interpreter shut down; repaired by `except Exception` in cli/update.py.  Such a run is now an ordinary
+exit-code VIOLATION, and a traceback of the checker thread on stderr is a disagreement with the model.)
 oracle (independent of the model): against a reference run of the same command with a refused connection --
 same exit status, same stdout except for ONE optional trailing notice line, wall-clock <= reference + join_timeout +
 slack, process terminates on its own."""
@@ -19,7 +22,6 @@ import time
 
 from .. import core
 
-ABORT_SIGNATURE = "abort-at-shutdown:dying-checker-not-joined"
 ABOUT_ONE_SECOND = 1.0
 SLACK = 1.5          # seconds of scheduling / start-up noise tolerated on top of join_timeout
 KILL_AFTER = 15.0    # a process that is still alive after this many seconds counts as hanging
@@ -354,9 +356,8 @@ def model_predict(cases):
         src = (
             "From Coq Require Import List NArith Bool.\nFrom MHL Require Import Gen.Generated Model.Update.\nImport ListNotations.\nLocal Open Scope N_scope.\n"
             "Definition show (k : config) := match predict k with\n"
-            "  | None => (999, false, 0, false, 0, known_abort_region k)\n"
-            "  | Some o => (o_exit o, o_notice o, o_delay o, existsb (fun e => match e with ECheckerTraceback => true | _ => false end) (o_err o),\n"
-            "               N.of_nat (length (o_chunks o)), known_abort_region k) end.\n"
+            "  | None => (999, false, 0, 0, 0)\n"
+            "  | Some o => (o_exit o, o_notice o, o_delay o, N.of_nat (length (o_err o)), N.of_nat (length (o_chunks o))) end.\n"
             "Definition cases : list config := [\n" + ";\n".join(rows) + "\n].\n"
             "Eval vm_compute in (map show cases).\n"
         )
@@ -366,11 +367,11 @@ def model_predict(cases):
         if rc != 0:
             raise RuntimeError("coqc cases.v failed: " + (out + err)[-1500:])
         flat = " ".join(out.split())
-        got = re.findall(r"\((\d+), (true|false), (\d+), (true|false), (\d+), (true|false)\)", flat)
+        got = re.findall(r"\(\s*(\d+),\s*(true|false),\s*(\d+),\s*(\d+),\s*(\d+)\s*\)", flat)
         if len(got) != len(cases):
             raise RuntimeError(f"cannot read the model's answers ({len(got)} of {len(cases)}): {flat[:400]}")
-        return [{"ended": g[0] != "999", "exit": int(g[0]), "notice": g[1] == "true", "delay": int(g[2]), "died": g[3] == "true", "lines": int(g[4]),
-                 "known_abort_region": g[5] == "true"} for g in got]
+        # "died": the model's stderr is empty in every run that ends (Props/C20.v: C20_prediction_sound) -- in particular no traceback of the checker thread
+        return [{"ended": g[0] != "999", "exit": int(g[0]), "notice": g[1] == "true", "delay": int(g[2]), "died": g[3] != "0", "lines": int(g[4])} for g in got]
     finally:
         shutil.rmtree(bdir, ignore_errors=True)
 
@@ -435,7 +436,7 @@ def evaluate(rep, env, cmds, runs, consts, installed):
             for r in rs[1:]:
                 if (r["exit"], r["stdout"]) != (r0["exit"], r0["stdout"]) or r["killed"]:
                     raise RuntimeError(f"reference runs of {cmds[k[0]]['label']} are not reproducible: {rs}")
-            refs[k] = dict(r0, wall=statistics.median(r["wall"] for r in rs), wall_max=max(r["wall"] for r in rs))
+            refs[k] = dict(r0, wall=statistics.median(r["wall"] for r in rs), wall_max=max(r["wall"] for r in rs), wall_min=min(r["wall"] for r in rs))
         # ---- the scripted runs
         t0 = time.time()
         results = list(ex.map(lambda r: env.run(cmds[r[0]], r[1], r[2]), runs))
@@ -445,11 +446,16 @@ def evaluate(rep, env, cmds, runs, consts, installed):
     for (ci, b, cur), res in zip(runs, results):
         ref = refs[(ci, cur)]
         curv = crosscheck_version(cur if cur is not None else installed)
-        cases.append((GROUPS[cmds[ci]["prog"]][2], curv, server_term(b), int(round(ref["wall"] * 1000)), ref["stdout"].count("\n"), cmds[ci]["end"], ref["exit"]))
+        # how long the command itself took in THIS run is only known to lie between the fastest reference run and the slower of
+        # (slowest reference run, this run): the model is asked for both ends; where the two answers differ (an answer arriving
+        # about when the join ends) either is accepted
+        for work in (ref["wall_min"], max(ref["wall_max"], res["wall"])):
+            cases.append((GROUPS[cmds[ci]["prog"]][2], curv, server_term(b), int(round(work * 1000)), ref["stdout"].count("\n"), cmds[ci]["end"], ref["exit"]))
     try:
-        preds = model_predict(cases)
+        flat_preds = model_predict(cases)
+        preds = [(flat_preds[2 * i], flat_preds[2 * i + 1]) for i in range(len(runs))]
     except Exception as e:  # noqa -- the oracle below still runs; the missing tie is reported
-        preds = [None] * len(cases)
+        preds = [None] * len(runs)
         rep.disagree({"op": "model_predict"}, None, str(e)[-1200:], "the model's predictions could not be computed")
     # ---- compare
     for (ci, b, cur), res, pred in zip(runs, results, preds):
@@ -477,22 +483,12 @@ def evaluate(rep, env, cmds, runs, consts, installed):
             rep.case((cmd["label"], b["name"], cur))
             continue
         ok_out, has_notice = split_notice(res["stdout"], ref["stdout"], notice)
-        # known finding: abort at interpreter shutdown while the dying checker thread holds stderr.  The region is the Coq
-        # boolean known_abort_region (Model/Update.v) evaluated on this run's configuration -- outside it the abort is an
-        # ordinary exit-code violation
-        aborted = res["exit"] in (-6, 134) and "_enter_buffered_busy" in res["stderr"]
-        if aborted and pred is not None and pred["known_abort_region"]:
-            rep.count("finding.abort-at-shutdown")
-            rep.violate(ABORT_SIGNATURE, scen, {"exit": ref["exit"]}, {"exit": res["exit"], "stderr_tail": res["stderr"][-500:]},
-                        "exit status 134 (SIGABRT, 'Fatal Python error: _enter_buffered_busy ... at interpreter shutdown, possibly due to daemon threads') instead of the "
-                        "command's: the checker thread was writing its traceback when the main thread exited without joining it")
-            if not ok_out:
-                rep.violate("stdout", scen, {"stdout": ref["stdout"]}, {"stdout": res["stdout"]}, "stdout differs (run that aborted at shutdown)")
-            rep.case((cmd["label"], b["name"], cur, "abort"))
-            continue
         # oracle 2: exit status
         if res["exit"] != ref["exit"]:
-            rep.violate("exit-code", scen, {"exit": ref["exit"]}, {"exit": res["exit"], "stderr_tail": res["stderr"][-600:]}, "exit status differs from the run of the same command without an update server")
+            aborted = res["exit"] in (-6, 134) and "_enter_buffered_busy" in res["stderr"]
+            rep.violate("exit-code", scen, {"exit": ref["exit"]}, {"exit": res["exit"], "stderr_tail": res["stderr"][-600:]},
+                        "exit status differs from the run of the same command without an update server"
+                        + (" (interpreter aborted at shutdown while a dying checker thread held stderr)" if aborted else ""))
         # oracle 3: stdout
         if not ok_out:
             rep.violate("stdout", scen, {"stdout": ref["stdout"], "optional_suffix": (notice or "") + "\n"}, {"stdout": res["stdout"]},
@@ -510,32 +506,34 @@ def evaluate(rep, env, cmds, runs, consts, installed):
         nontrivial = b["name"] != "refused"
         if pred is None:
             pass
-        elif not pred["ended"]:
+        elif not (pred[0]["ended"] and pred[1]["ended"]):
             rep.disagree(scen, None, impl_obs, "the model's eager run does not end in Exit")
         else:
-            # whether the traceback of a dying checker is seen depends on a race unless the main thread joins the checker
-            # (normal return) or the answer comes long after the process is gone
-            keys = ("exit", "notice", "died") if (cmd["end"] == "returns" or b.get("delay", 0) >= 2) else ("exit", "notice")
-            mod_obs = {k: pred[k] for k in keys}
-            impl_obs = {k: impl_obs[k] for k in keys}
-            if mod_obs != impl_obs and ok_out:
+            keys = ("exit", "notice", "died")
+            alternatives = [{k: p[k] for k in keys} for p in pred]
+            if alternatives[0] != alternatives[1]:
+                rep.count("model.timing-ambiguous (either answer accepted)")
+            mod_obs = alternatives[0] if impl_obs != alternatives[1] else alternatives[1]
+            delay_lo, delay_hi = min(p["delay"] for p in pred), max(p["delay"] for p in pred)
+            pred = dict(pred[0], delay=delay_hi, notice=mod_obs["notice"])
+            if impl_obs not in alternatives and ok_out:
                 # a late thread start can lose a race that the nominal timing wins: look again before counting
                 again = rerun(lambda r: {k: v for k, v in {"exit": r["exit"], "notice": split_notice(r["stdout"], ref["stdout"], notice)[1],
-                                                            "died": "Exception in thread" in r["stderr"]}.items() if k in keys} != mod_obs)
+                                                            "died": "Exception in thread" in r["stderr"]}.items() if k in keys} not in alternatives)
                 if again is not None:
                     rep.disagree(scen, mod_obs, impl_obs, "exit status / notice / death of the checker thread differ from the model's prediction")
             # the wait in the join is part of the run's wall-clock time (lower bound, robust against load), and the run may
             # not take longer than the slowest reference run plus the predicted wait plus slack
             def off(r):
-                return r["wall"] > ref["wall_max"] + pred["delay"] / 1000 + SLACK or r["wall"] < 0.9 * pred["delay"] / 1000
+                return r["wall"] > ref["wall_max"] + delay_hi / 1000 + SLACK or r["wall"] < 0.9 * delay_lo / 1000
 
             if off(res):
                 again = rerun(off)
                 if again is not None:
-                    rep.disagree(scen, {"delay_ms": pred["delay"]}, {"wall_s": round(res["wall"], 2), "again_wall_s": round(again["wall"], 2), "reference_wall_s": round(ref["wall_max"], 2)},
+                    rep.disagree(scen, {"delay_ms": [delay_lo, delay_hi]}, {"wall_s": round(res["wall"], 2), "again_wall_s": round(again["wall"], 2), "reference_wall_s": round(ref["wall_max"], 2)},
                                  "time added by the update check differs from the model's join delay")
             rep.count("model.notice" if pred["notice"] else "model.no-notice")
-            rep.count("model.checker-dies" if pred["died"] else "model.checker-survives")
+            rep.count("impl.checker-traceback" if died else "impl.no-checker-traceback")
             rep.count("model.join-wait." + ("0" if pred["delay"] == 0 else "partial" if pred["delay"] < 1000 * timeout_s else "full-timeout"))
         rep.case((cmd["label"], b["name"], cur, res["exit"], has_notice), nontrivial=nontrivial,
                  sample={"command": cmd["label"], "server": b["name"], "installed": cur, "exit": res["exit"], "notice": has_notice, "checker_died": died,
